@@ -345,6 +345,9 @@ def _norm_vec(v):
 
 def _norm_axis(v, axis):
     v = np.asarray(v, dtype=object)
+    if axis is not None and not isinstance(axis, tuple) and not -v.ndim <= int(axis) < v.ndim:
+        # numpy refuses an axis the array does not have (a single vector where a table of vectors was expected)
+        raise ModelError('AxisError', 'axis %d is out of bounds for array of dimension %d' % (int(axis), v.ndim))
     if axis is None or v.ndim == 1:
         return _norm_vec(v)
     sq = np.sum(v * v, axis=axis)
